@@ -4,12 +4,13 @@ import (
 	"fmt"
 	"math"
 	"sort"
+	"strings"
 
 	"pgregory.net/rapid"
 )
 
 type ProgressFacts struct {
-	PendingLeft, PlacedSome, Judged, Skipped int
+	PendingLeft, PlacedSome, Judged, Skipped, WithClaims int
 }
 
 // CheckWorkConservation is clause (a) of C05 on one allocate-only cycle: no ready, fully pending workload whose
@@ -54,6 +55,40 @@ func CheckWorkConservation(w *World, rec *CycleRecord) ([]Finding, ProgressFacts
 	if len(placed) > 0 {
 		facts.PlacedSome = 1
 	}
+	// DRA devices that are taken after the cycle: allocated claims of the store, allocations travelling in live bind
+	// requests, devices of this cycle's nominations
+	takenDevices := map[string]bool{} // driver/pool/device
+	for _, rc := range rec.After.Claims {
+		if rc.Status.Allocation != nil {
+			for _, r := range rc.Status.Allocation.Devices.Results {
+				takenDevices[r.Driver+"/"+r.Pool+"/"+r.Device] = true
+			}
+		}
+	}
+	for _, br := range rec.After.BRs {
+		for _, ca := range br.Spec.ResourceClaimAllocations {
+			if ca.Allocation != nil {
+				for _, r := range ca.Allocation.Devices.Results {
+					takenDevices[r.Driver+"/"+r.Pool+"/"+r.Device] = true
+				}
+			}
+		}
+	}
+	for _, c := range rec.Calls {
+		if c.Err == "" {
+			for _, cd := range c.Claims {
+				if i := strings.Index(cd, "="); i >= 0 {
+					takenDevices[cd[i+1:]] = true
+				}
+			}
+		}
+	}
+	takenPerPool := map[string]int{} // driver/pool
+	for d := range takenDevices {
+		if i := strings.LastIndex(d, "/"); i > 0 {
+			takenPerPool[d[:i]]++
+		}
+	}
 	// queue allocations after the cycle (active pods incl. binding) + nominations
 	qAll, qNP := map[string][3]float64{}, map[string][3]float64{}
 	charge := func(wl *WorkloadInfo, ch [3]float64) {
@@ -68,15 +103,36 @@ func CheckWorkConservation(w *World, rec *CycleRecord) ([]Finding, ProgressFacts
 			qAll[q.Name], qNP[q.Name] = a, n
 		}
 	}
+	// GPUs requested through DRA claims of the GPU device class count towards the queues' GPU allocation as well
+	draGPUs := func(pv *PodView) float64 {
+		n := 0.0
+		for _, pc := range pv.Raw.Spec.ResourceClaims {
+			if pc.ResourceClaimName == nil {
+				continue
+			}
+			if rc := rec.After.Claims[*pc.ResourceClaimName]; rc != nil {
+				for _, rq := range rc.Spec.Devices.Requests {
+					if rq.Exactly != nil && rq.Exactly.DeviceClassName == DRAGPUClass {
+						n += float64(rq.Exactly.Count)
+					}
+				}
+			}
+		}
+		return n
+	}
 	for _, pv := range rec.After.Pods {
 		if wl := wls[pv.Workload]; wl != nil && pv.Active() && !pv.Reservation {
-			charge(wl, Charge(pv.Req, caps[pv.Node]))
+			ch := Charge(pv.Req, caps[pv.Node])
+			ch[RGPU] += draGPUs(pv)
+			charge(wl, ch)
 		}
 	}
 	for _, c := range rec.Calls {
 		if c.Kind == "pipeline" && c.Err == "" {
 			if pv := rec.Before.ByName[c.Pod]; pv != nil && wls[pv.Workload] != nil {
-				charge(wls[pv.Workload], Charge(pv.Req, caps[c.Node]))
+				ch := Charge(pv.Req, caps[c.Node])
+				ch[RGPU] += draGPUs(pv)
+				charge(wls[pv.Workload], ch)
 			}
 		}
 	}
@@ -133,6 +189,37 @@ func CheckWorkConservation(w *World, rec *CycleRecord) ([]Finding, ProgressFacts
 			facts.Skipped++
 			continue
 		}
+		// DRA claims of the (identical) pods: devices of a class, per pod; claims of the DRA GPU class are left out
+		// (they count towards GPU quotas and limits, which this counting argument does not model)
+		type devNeed struct {
+			class string
+			count int
+		}
+		var needs []devNeed
+		draGPU, oddClaim := false, false
+		for _, pc := range pods[0].Raw.Spec.ResourceClaims {
+			if pc.ResourceClaimName == nil {
+				oddClaim = true
+				continue
+			}
+			rc := rec.After.Claims[*pc.ResourceClaimName]
+			if rc == nil || len(rc.Spec.Devices.Requests) != 1 || rc.Spec.Devices.Requests[0].Exactly == nil {
+				oddClaim = true
+				continue
+			}
+			ex := rc.Spec.Devices.Requests[0].Exactly
+			if ex.DeviceClassName == DRAGPUClass {
+				draGPU = true
+			}
+			needs = append(needs, devNeed{ex.DeviceClassName, int(ex.Count)})
+		}
+		if draGPU || oddClaim {
+			facts.Skipped++
+			continue
+		}
+		if len(needs) > 0 {
+			facts.WithClaims++
+		}
 		// how many of its identical pods fit on what is idle now?
 		fit := int64(0)
 		var detail []string
@@ -176,6 +263,10 @@ func CheckWorkConservation(w *World, rec *CycleRecord) ([]Finding, ProgressFacts
 			} else {
 				lim(idleGPUs, req.GPUs)
 				lim(c.Pods-u.Pods, 1)
+			}
+			for _, dn := range needs {
+				pool := dn.class + "/" + n
+				lim(int64(rec.After.Slices[pool]-takenPerPool[pool]), int64(dn.count))
 			}
 			if k < 0 {
 				k = 0
@@ -235,9 +326,13 @@ func JudgeWorkConservation(w *World) *Verdict {
 		tot.PendingLeft += f.PendingLeft
 		tot.PlacedSome += f.PlacedSome
 		tot.Skipped += f.Skipped
+		tot.WithClaims += f.WithClaims
 	}
 	if tot.PendingLeft > 0 {
 		v.Classes = append(v.Classes, "workload-left-pending")
+	}
+	if tot.WithClaims > 0 {
+		v.Classes = append(v.Classes, "pending-workload-with-dra-claims-judged")
 	}
 	if tot.PlacedSome > 0 {
 		v.Classes = append(v.Classes, "some-workload-placed")
